@@ -632,6 +632,15 @@ def run(ctx):
     ctx.cov["trusted_base"].append("parser theorems (c11_missing_*_partial, c11_*_refuted) are about coq/Parse/ParserModel.v, a transliteration of "
                                    "parser.go tied to the implementation by the correspondence leg of checks/c19.py (lib/parsecorr.py)")
     n_eval += len(ctx.cov["parser_refuted_witnesses"])
+    # ---- ill-typed mutants that the verified WGSL type checker (coq/Wgsl/Typecheck.v, tool wgslcheck) rejects:
+    # for the classes naga diagnoses naga must reject them too; all other WGSL rules are only counted
+    try:
+        import wgslcheck
+        st = wgslcheck.mutation_leg(ctx, vcheck.build_harness(["nagadrive"]), ctx.scale(6, 60), 1)
+        n_eval += st["mutants"]
+    except Exception as e:
+        broken.append("type-checker mutation leg (lib/wgslcheck.py) failed to run: %s" % str(e)[-300:])
+    lap("wgslcheck_mutations")
     ctx.cov["evaluations"] = n_eval
     ctx.cov["distinct_nontrivial"] = len(set(hashlib.sha1(c.src.encode("utf-8", "surrogateescape")).digest() for c in allc)) + \
         (ctx.cov.get("leaf_correspondence", {}).get("swizzle", {}).get("compared", 0))
